@@ -45,6 +45,8 @@ def schedules(n, base_preload=0):
             else:
                 out.append((base_preload + k, False, comp))
                 out.append((base_preload + k, True, comp))
+                if k >= 2 and len(comp) <= 2:
+                    out.append((base_preload + k, "restart", comp))
     return out
 
 
@@ -132,7 +134,7 @@ def one_stream(prop, rep, cfg, tfc, raw, base_preload, gkind):
             elif has_reading and len(comp) >= 2:
                 rep.add("nontrivial", (label, tfc, gkind, tuple(raw), k, calc_first, comp))
         else:
-            if not calc_first and snaps:
+            if calc_first is False and snaps:
                 snaps = snaps[1:]  # an uncalculated preload has no readings yet: not a point of the history
             for s in snaps:
                 rep.add("states", s)
@@ -162,7 +164,8 @@ PLUMB_WORDS = ["UDJLHFVZU", "JLDUHVFZD", "LHUJDZVFJ"]
 def explore_gaps(item):
     """Where candles fall relative to bucket edges decides which appends merge, open one bucket, open several or
     fill: every gap word over {same bucket, next bucket, skip one, far} x first offset x every composition."""
-    prop, tier, label, tfc, first, g0 = item
+    prop, tier, label, tfc, first, g0 = item[:6]
+    micro = item[6] if len(item) > 6 else 0  # sub-second part added to every timestamp (the library drops it)
     sp = spaces(tier)
     cfg = BY_LABEL[label]
     rep = Report()
@@ -172,10 +175,12 @@ def explore_gaps(item):
     for rest in A.words(sp["plumb_gaps"], n - 2):
         gaps = g0 + rest
         ts = A.timestamps(first, gaps, tfsec, A.variant()["base"])
+        if micro:
+            ts = [t.replace(microsecond=micro) for t in ts]
         raw = [A.shape(w) + (t.isoformat(),) for w, t in zip(word, ts)]
         try:
             with deadline(sp["horizon"] * 2):
-                one_stream(prop, rep, cfg, tfc, raw, 0, "gaps:" + first + gaps)
+                one_stream(prop, rep, cfg, tfc, raw, 0, "gaps:" + first + gaps + (".%06d" % micro if micro else ""))
         except Horizon:
             rep.violation(f"{prop}|horizon|{cfg.get('cls', cfg.get('analysis'))}",
                           {"cfg": label, "tfc": tfc, "raw": raw, "why": "did not terminate within horizon"})
@@ -371,7 +376,7 @@ def replay(case):
             snaps = []
             run_schedule(cfg, raw, tfc, case["preload"], case["calc_first"], tuple(case["comp"]),
                          on_step=lambda i, pos: snaps.append(obs(i)))
-            if not case["calc_first"]:
+            if case["calc_first"] is False:
                 snaps = snaps[1:]
             for i in range(len(snaps)):
                 ci = closed(snaps[i], tfc)
@@ -440,12 +445,13 @@ def main(prop, tier):
                 items.append((prop, tier, cfg["label"], tfc, g, fl, n))
     reps = pmap(explore, items)
     gap_items = [(prop, tier, l, tfc, first, g0) for l in PLUMB_POOL for tfc in sp["plumb_tfcs"] for first in "+b" for g0 in sp["plumb_gaps"]]
+    gap_items += [(prop, tier, l, sp["plumb_tfcs"][0], first, g0, 400000) for l in ("OBV", "VWAP", "EMA2", "ST2") for first in "+b" for g0 in sp["plumb_gaps"]]
     reps += pmap(explore_gaps, gap_items)
     reps += pmap(explore_chain, [(prop, tier, ci, order, tf) for ci in range(len(CHAINS)) for order in (0, 1) for tf in (None, "T2")])
     step_its = []
     for cfg in ALL:
         for tfc, gkinds in sp["tfcs"]:
-            for gk in gkinds:
+            for gk in (gkinds if tier != "quick" else gkinds[-1:]):
                 for fl in sp["sigma_step"]:
                     step_its.append((prop, tier, cfg["label"], tfc, gk, fl))
     if prop == "C01":
